@@ -166,15 +166,20 @@ def _run_hier(ctx, spec, rng):
     e = bell_ensemble() if r == 0 else ensemble(rng, r * 7 + 1)
     dims, n, p = e["dims"], e["n"], e["p"]
     field = "complex" if e["cplx"] else "real"
-    sig = (tuple(dims), n, e["form"], field, e["pk"])
+    sig = (tuple(dims), n, e["form"], field, e["pk"], (r // 3) % 2 == 1)
     nt = e["cplx"] or e["form"] == "dm" or dims != [2, 2] or e["pk"] != 0
     res = _solve(ctx, ppt_distinguishability, _fresh(e), [1], list(dims), list(p))
     ppt = None if res is None else float(np.real(res[0]))
-    l1 = _solve(ctx, symmetric_extension_hierarchy, _fresh(e), list(p), 1, list(dims))
+    # the dimension argument in its documented forms: the pair, a single integer d (meaning [d, N/d]), or omitted for equal dimensions
+    dimarg = int(dims[0]) if (r // 3) % 2 == 1 else list(dims)
+    if dims[0] == dims[1] and r % 4 == 3:
+        dimarg = None
+    dimform = "pair" if isinstance(dimarg, list) else ("int" if dimarg is not None else "omitted")
+    l1 = _solve(ctx, symmetric_extension_hierarchy, _fresh(e), list(p), 1, dimarg)
     do2 = dims == [2, 2] or r % 3 == 0 or ctx.tier == "thorough"
-    l2 = _solve(ctx, symmetric_extension_hierarchy, _fresh(e), list(p), 2, list(dims)) if do2 else None
+    l2 = _solve(ctx, symmetric_extension_hierarchy, _fresh(e), list(p), 2, dimarg) if do2 else None
     prod = product_measurement_value(rng, e)
-    det = {"dims": dims, "n": n, "form": e["form"], "field": field, "ppt": ppt, "level1": l1, "level2": l2, "product_measurement": prod}
+    det = {"dims": dims, "dim_argument": dimform, "n": n, "form": e["form"], "field": field, "ppt": ppt, "level1": l1, "level2": l2, "product_measurement": prod}
     ctx.sample("O3:level1=PPT", det)
     if l1 is not None and ppt is not None:
         ctx.check("O3:level1=PPT", None, dev=abs(l1 - ppt), tol=TOLB, sig=sig, nt=nt, mech="symmetric_extension_hierarchy:level1!=PPT", detail=det)
